@@ -31,6 +31,22 @@ static RUNNING_TASKS: Lazy<DashMap<u64, u64>> = Lazy::new(DashMap::new);
 
 static CANCEL_TASKS: Lazy<DashSet<u64>> = Lazy::new(DashSet::new);
 
+// Task ids are process-wide and any pool may end up running a task (shared
+// queue, work stealing), so results and waiters are process-wide too: a join
+// handle finds the result whichever pool ran the task.
+/// `task_id` -> result
+static RESULTS: Lazy<DashMap<u64, Result<Option<usize>, &'static str>>> = Lazy::new(DashMap::new);
+
+/// `task_id` -> the waiter blocked in `wait_task_result`
+#[allow(clippy::type_complexity)]
+static WAITS: Lazy<DashMap<u64, Arc<(Mutex<bool>, Condvar)>>> = Lazy::new(DashMap::new);
+
+/// tasks whose result nobody will ask for
+static NO_WAITS: Lazy<DashSet<u64>> = Lazy::new(DashSet::new);
+
+/// number of pools that are not stopped yet
+pub(crate) static LIVE_POOLS: AtomicUsize = AtomicUsize::new(0);
+
 /// The coroutine pool impls.
 #[repr(C)]
 #[derive(Debug)]
@@ -54,11 +70,6 @@ pub struct CoroutinePool<'p> {
     keep_alive_time: AtomicU64,
     //阻滞器
     blocker: Arc<CondvarBlocker>,
-    //正在等待结果的
-    waits: DashMap<u64, Arc<(Mutex<bool>, Condvar)>>,
-    //任务执行结果
-    results: DashMap<u64, Result<Option<usize>, &'p str>>,
-    no_waits: DashSet<u64>,
 }
 
 impl Drop for CoroutinePool<'_> {
@@ -129,6 +140,7 @@ impl<'p> CoroutinePool<'p> {
     ) -> Self {
         let mut workers = Scheduler::new(name, stack_size);
         workers.add_listener(CoroutineCreator::default());
+        _ = LIVE_POOLS.fetch_add(1, Ordering::AcqRel);
         CoroutinePool {
             state: Cell::new(PoolState::Running),
             workers,
@@ -142,9 +154,6 @@ impl<'p> CoroutinePool<'p> {
             .local_queue(),
             keep_alive_time: AtomicU64::new(keep_alive_time),
             blocker: Arc::default(),
-            results: DashMap::new(),
-            waits: DashMap::default(),
-            no_waits: DashSet::default(),
         }
     }
 
@@ -235,14 +244,18 @@ impl<'p> CoroutinePool<'p> {
     }
 
     fn do_clean(&mut self) {
+        if LIVE_POOLS.load(Ordering::Acquire) > 0 {
+            // another pool may still run the tasks that are waited for
+            return;
+        }
         // clean up remaining wait tasks
-        // (collect the ids first: `notify` removes from `waits`, which must not
+        // (collect the ids first: `notify` removes from `WAITS`, which must not
         // happen while the map is being iterated)
-        let task_ids: Vec<u64> = self.waits.iter().map(|r| *r.key()).collect();
+        let task_ids: Vec<u64> = WAITS.iter().map(|r| *r.key()).collect();
         for task_id in task_ids {
-            _ = self
-                .results
-                .insert(task_id, Err("The coroutine pool has stopped"));
+            if !RESULTS.contains_key(&task_id) {
+                _ = RESULTS.insert(task_id, Err("The coroutine pool has stopped"));
+            }
             self.notify(task_id);
         }
     }
@@ -280,13 +293,22 @@ impl<'p> CoroutinePool<'p> {
     /// Allow multiple threads to concurrently submit task to the pool,
     /// but only allow one thread to execute scheduling.
     pub(crate) fn submit_raw_task(&self, task: Task<'p>) {
-        self.task_queue.push(task);
+        if Self::current().is_some_and(|pool| std::ptr::eq(pool, self)) {
+            // the scheduling thread itself (a task submitting a task): it owns the local queue
+            self.task_queue.push(task);
+        } else {
+            // any other thread: the local queue is single-producer, go through the shared queue
+            BeanFactory::get_or_default::<OrderedWorkStealQueue<Task<'p>>>(
+                crate::common::constants::TASK_GLOBAL_QUEUE_BEAN,
+            )
+            .push(task);
+        }
         self.blocker.notify();
     }
 
     /// Attempt to obtain task results with the given `task_id`.
     pub fn try_take_task_result(&self, task_id: u64) -> Option<Result<Option<usize>, &'p str>> {
-        self.results.remove(&task_id).map(|(_, r)| r)
+        RESULTS.remove(&task_id).map(|(_, r)| r)
     }
 
     /// clean the task result data.
@@ -294,7 +316,7 @@ impl<'p> CoroutinePool<'p> {
         if self.try_take_task_result(task_id).is_some() {
             return;
         }
-        _ = self.no_waits.insert(task_id);
+        _ = NO_WAITS.insert(task_id);
         _ = CANCEL_TASKS.remove(&task_id);
     }
 
@@ -326,13 +348,19 @@ impl<'p> CoroutinePool<'p> {
                 }
             }
         }
-        let arc = if let Some(arc) = self.waits.get(&task_id) {
+        let arc = if let Some(arc) = WAITS.get(&task_id) {
             arc.clone()
         } else {
             let arc = Arc::new((Mutex::new(true), Condvar::new()));
-            assert!(self.waits.insert(task_id, arc.clone()).is_none());
+            assert!(WAITS.insert(task_id, arc.clone()).is_none());
             arc
         };
+        // the task may have finished between the first look and the registration:
+        // nobody would wake this waiter, so look again before blocking
+        if let Some(r) = self.try_take_task_result(task_id) {
+            self.notify(task_id);
+            return Ok(r);
+        }
         let (lock, cvar) = &*arc;
         drop(
             cvar.wait_timeout_while(
@@ -448,12 +476,10 @@ impl<'p> CoroutinePool<'p> {
                 _ = CANCEL_TASKS.remove(&task_id);
                 warn!("Cancel task:{} successfully !", task_id);
                 // the task will never run: settle whoever waits for its result
-                if self.no_waits.contains(&task_id) {
-                    _ = self.no_waits.remove(&task_id);
+                if NO_WAITS.contains(&task_id) {
+                    _ = NO_WAITS.remove(&task_id);
                 } else {
-                    _ = self
-                        .results
-                        .insert(task_id, Err("The task has been cancelled"));
+                    _ = RESULTS.insert(task_id, Err("The task has been cancelled"));
                     self.notify(task_id);
                 }
                 return;
@@ -481,12 +507,12 @@ impl<'p> CoroutinePool<'p> {
                 )
             });
             _ = RUNNING_TASKS.remove(&task_id);
-            if self.no_waits.contains(&task_id) {
-                _ = self.no_waits.remove(&task_id);
+            if NO_WAITS.contains(&task_id) {
+                _ = NO_WAITS.remove(&task_id);
                 return;
             }
             assert!(
-                self.results.insert(task_id, result).is_none(),
+                RESULTS.insert(task_id, result).is_none(),
                 "The previous result was not retrieved in a timely manner"
             );
             #[cfg(open_coroutine_verif)]
@@ -500,7 +526,7 @@ impl<'p> CoroutinePool<'p> {
     }
 
     fn notify(&self, task_id: u64) {
-        if let Some((_, arc)) = self.waits.remove(&task_id) {
+        if let Some((_, arc)) = WAITS.remove(&task_id) {
             let (lock, cvar) = &*arc;
             let mut pending = lock.lock().expect("notify task failed");
             *pending = false;
